@@ -251,6 +251,47 @@ Example ex_fname_adversarial_keys :
 Proof. split; vm_compute; reflexivity. Qed.
 Print Assumptions ex_fname_adversarial_keys.
 
+(* On demand (get_efield / get_hfield / recomputation in gradient and jvec) ONE
+   task is dispatched: its slot receives the result of its own task, every other
+   slot keeps what it held ... *)
+Theorem on_demand_compute_slot {K V T} (keqb : K -> K -> bool)
+        (keqb_spec : forall a b, reflect (a = b) (keqb a b)) (f : T -> V)
+        (mk : K -> option V -> T) c nworkers tr k d d' :
+  is_ordered c = true ->
+  compute keqb f mk c nworkers tr [k] d = Some d' ->
+  d' k = Some (f (mk k (d k))) /\ (forall k', k' <> k -> d' k' = d k').
+Proof. exact (on_demand_slot keqb keqb_spec f mk c nworkers tr k d d'). Qed.
+Print Assumptions on_demand_compute_slot.
+
+(* ... and in file_dir mode the hand-over files of all OTHER slots are untouched,
+   because (fname_injective) they have other names: the name is a function of the
+   slot, not of the list being dispatched. *)
+Theorem on_demand_other_files_untouched {B} (s : @fs B) what sources freqs k k' b :
+  has_us what = false ->
+  In (fst k) sources -> In (fst k') sources -> In (snd k) freqs -> In (snd k') freqs ->
+  k' <> k ->
+  fwrite s (fname what sources freqs k) b (fname what sources freqs k')
+  = s (fname what sources freqs k').
+Proof.
+  exact (fun Hw Hs Hs' Hf Hf' Hne =>
+    fwrite_other s _ _ b (fun E => Hne (proj2 (fname_injective_lemma what what sources freqs
+                                                   k' k Hw Hw Hs' Hs Hf' Hf E)))).
+Qed.
+Print Assumptions on_demand_other_files_untouched.
+
+(* the on-demand call chain carries the (source, frequency) of the slot read back *)
+Theorem ondemand_keys_positional : ondemand_keys_ok = true.
+Proof. exact mpshape_ondemand. Qed.
+Print Assumptions ondemand_keys_positional.
+
+(* History: a name built from the running number of the task in the dispatched
+   list is unique within a full compute but identical for all on-demand tasks. *)
+Theorem fname_task_number_on_demand_refuted :
+  exists k1 k2 : string * string,
+    k1 <> k2 /\ fname_by_task_number "efield" [k1] k1 = fname_by_task_number "efield" [k2] k2.
+Proof. exact fname_by_task_number_collision. Qed.
+Print Assumptions fname_task_number_on_demand_refuted.
+
 (* History: the UNFIXED variant  f"{what}_{source}_{frequency}.h5"  (emg3d before
    "fix: file_dir hand-over files of different source-frequency pairs could
    share one name") was injective only for source keys without '_' ... *)
